@@ -452,6 +452,10 @@ func ServerWithOptions(opts ...ServerOption) (*Association, error) {
 	select {
 	case err := <-assoc.handshakeCompletedCh:
 		if err != nil {
+			// nobody will ever receive from handshakeCompletedCh again and the caller gets
+			// no handle: tear the association down, as on cancellation.
+			assoc.Close() // nolint:errcheck,gosec
+
 			return nil, err
 		}
 
@@ -520,6 +524,10 @@ func createClientWithOptionsWithContext(ctx context.Context, opts ...ClientOptio
 		return nil, ctx.Err()
 	case err := <-assoc.handshakeCompletedCh:
 		if err != nil {
+			// nobody will ever receive from handshakeCompletedCh again and the caller gets
+			// no handle: tear the association down, as on cancellation.
+			assoc.Close() // nolint:errcheck,gosec
+
 			return nil, err
 		}
 
